@@ -86,6 +86,27 @@ int main() {
               arpa.find("\\end\\") != std::string::npos;
   printf("pruneCopiesSpecials : Bool := %s\n", good ? "true" : "false");
 
+  // (D) the option-vector rule of ParsePruning, observed on fixed vectors (value list, order):
+  //     accepted = lmplz does not refuse the vector up front
+  {
+    put("d.txt", "a b c\na b c\na b\nc a b c\n");
+    const char *vecs[][2] = {{"0 1 2", "3"}, {"0 2 1", "3"}, {"0 2 1", "4"}, {"2 1 1", "3"}, {"1 0", "2"}, {"1 0", "3"},
+                             {"0 0 0 0", "3"}, {"0 2 2 1", "4"}, {"0 1 2 1", "4"}, {"1", "3"}, {"0 0 1", "3"}, {"3 3", "2"},
+                             {"0 2 1 1", "4"}, {"1 2 0", "5"}};
+    printf("pruneProbe : List (List Nat × Nat × Bool) := [");
+    for (unsigned i = 0; i < sizeof(vecs) / sizeof(vecs[0]); ++i) {
+      lmplz(std::string("-o ") + vecs[i][1] + " --discount_fallback --prune " + vecs[i][0], "d");
+      std::string e = slurp("d.err");
+      bool refused = e.find("Pruning thresholds should be in non-decreasing order") != std::string::npos ||
+                     e.find("You specified pruning thresholds for orders") != std::string::npos ||
+                     e.find("Bad pruning threshold") != std::string::npos;
+      std::string l(vecs[i][0]);
+      for (size_t k = 0; k < l.size(); ++k) if (l[k] == ' ') l[k] = ',';
+      printf("%s([%s], %s, %s)", i ? ", " : "", l.c_str(), vecs[i][1], refused ? "false" : "true");
+    }
+    printf("]\n");
+  }
+
   std::string rm = "rm -rf " + dir;
   if (system(rm.c_str())) {}
   return 0;
